@@ -13,7 +13,7 @@ bounded = sorted(set(re.findall(r'bounded stand-in: ([^:]+):', out)))
 confirm = ''
 if len(sys.argv) > 2 and os.path.exists(sys.argv[2]):
     for line in open(sys.argv[2]):
-        key = sid[6:] if re.match(r'C\d\dr\d', sid) else prop      # rounds 3, 4: lines start with the area letter
+        key = re.sub(r'^C\d\dr\d+', '', sid) if re.match(r'C\d\dr\d', sid) else prop      # rounds 3, 4: lines start with the area letter
         if line.startswith(key + ' '):
             confirm = line.strip()
 meta = {
